@@ -551,6 +551,57 @@ func liveDecode(ti terminfo.Terminfo, b []byte) ([]interface{}, error) {
 	}
 }
 
+// liveSplit types a and then b at a real screen on a fake tty, with a resize notification in between.
+func liveSplit(ti terminfo.Terminfo, a, b []byte) ([]interface{}, bool, error) {
+	os.Setenv("LC_ALL", "en_US.UTF-8")
+	tty := faketty.New(80, 24)
+	s, err := tcell.NewTerminfoScreenFromTtyTerminfo(tty, &ti)
+	if err != nil {
+		return nil, false, err
+	}
+	if err := s.Init(); err != nil {
+		return nil, false, err
+	}
+	defer s.Fini()
+	evc := make(chan tcell.Event, 64)
+	go func() {
+		for {
+			ev := s.PollEvent()
+			if ev == nil {
+				close(evc)
+				return
+			}
+			evc <- ev
+		}
+	}()
+	time.Sleep(2 * time.Millisecond)
+	t0 := time.Now()
+	tty.Inject(a)
+	time.Sleep(3 * time.Millisecond) // the main loop now holds the first piece
+	tty.SetSize(80, 24, true)        // a notification without a size change
+	time.Sleep(3 * time.Millisecond)
+	tty.Inject(b)
+	late := time.Since(t0) > 25*time.Millisecond
+	evs := []interface{}{}
+	limit := time.After(3 * time.Second)
+	for {
+		select {
+		case ev, ok := <-evc:
+			if !ok {
+				return evs, late, nil
+			}
+			switch ev.(type) {
+			case *tcell.EventKey, *tcell.EventMouse, *tcell.EventPaste, *tcell.EventFocus:
+				evs = append(evs, evJSON(ev))
+			}
+		case <-time.After(200 * time.Millisecond):
+			return evs, late, nil
+		case <-limit:
+			return evs, late, nil
+		}
+	}
+}
+
 // inputAlpha replays the state space of spec/InputModel.tla through the real decoder: every string over
 // the model's alphabet up to maxLen, under every partition into reads.
 func inputAlpha(tw *trace.Writer, maxLen int, st map[string]interface{}) error {
@@ -740,6 +791,38 @@ func inputKeys(tw *trace.Writer, rng *rand.Rand, names []string, npairs int, st 
 				e["prior"] = trace.Ints(prior)
 				tw.Emit(e)
 				decodes++
+			}
+		}
+		// live screen: a key sequence arrives in two reads within the escape timeout, and a resize notification is
+		// handled between them - the key still decodes as one (late = the pieces were more than 25 ms apart)
+		// (not on entries with padding delays: their resize redraw sleeps for longer than the escape timeout)
+		if name == "xterm-256color" || name == "rxvt" || name == "linux" {
+			cnt := 0
+			for _, s := range all {
+				if len(s) < 2 || cnt >= 10 {
+					continue
+				}
+				cnt++
+				for cut := 1; cut < len(s) && cut <= 2; cut++ {
+					// up to three tries: a scheduling hiccup longer than the 50 ms timeout may tear one of them, a defect
+					// tears all of them
+					tries := []interface{}{}
+					anyLate := false
+					for try := 0; try < 3; try++ {
+						evs, late, err := liveSplit(g.ti, []byte(s[:cut]), []byte(s[cut:]))
+						if err != nil {
+							return err
+						}
+						anyLate = anyLate || late
+						tries = append(tries, evs)
+						if len(evs) == 1 {
+							break
+						}
+					}
+					tw.Emit(trace.Ev{"ev": "LiveSplit", "s": 0, "bytes": trace.Ints([]byte(s)), "cuts": []int{cut}, "tries": tries, "left": 0, "held": 0,
+						"panic": false, "stall": false, "late": anyLate})
+					decodes++
+				}
 			}
 		}
 		// xterm modifier forms for cursor / editing / function keys
